@@ -287,18 +287,19 @@ theorem C11_outer_transition_first {τ : Type} [Sub τ] [LE τ] [LT τ] [Decidab
   simp only [firstTrans, hneeds, if_true, Option.some.injEq] at ht
   exact ⟨hent, by rw [hfar, ← ht]⟩
 
-/-! ## exact time: the Skedder's stamps `0, P, 2P, …` -/
+/-! ## exact time: the Skedder's stamps `0, P, 2P, …`; the instance is started at tick `s`
+(`s = 0` for an active framer, the tick its main frame is entered for an auxiliary framer or a clone) -/
 
 /-- under the Skedder the elapsed seen `k` iterations after the outline changed is exactly `k·P` -/
-theorem C11_elapsed_is_k_periods (tr : Nat → List (Trans Int)) (P : Int) (n : Nat)
+theorem C11_elapsed_is_k_periods (tr : Nat → List (Trans Int)) (P : Int) (s n : Nat)
     (pre : List (Obs Int)) (oe : Obs Int) (mid : List (Obs Int)) (oi : Obs Int) (post : List (Obs Int))
-    (h : run tr (stamps P n) = pre ++ oe :: (mid ++ oi :: post))
+    (h : run tr (stampsFrom P s n) = pre ++ oe :: (mid ++ oi :: post))
     (he : oe.entered = true) (hm : ∀ m ∈ mid, m.entered = false) :
     oi.evalElapsed = some (((mid.length + 1 : Nat) : Int) * P) := by
   rw [(C11_clocks_since_outline_change tr _ pre oe mid oi post h he hm).1]
-  have h1 := now_at tr P n pre oe _ h
-  have h2 : oi.now = ((pre ++ oe :: mid).length : Nat) * P :=
-    now_at tr P n (pre ++ oe :: mid) oi post (by rw [h]; simp)
+  have h1 := now_at tr P s n pre oe _ h
+  have h2 : oi.now = ((s + (pre ++ oe :: mid).length : Nat) : Int) * P :=
+    now_at tr P s n (pre ++ oe :: mid) oi post (by rw [h]; simp)
   rw [h1, h2]
   congr 1
   simp only [List.length_append, List.length_cons, Int.natCast_add, Int.natCast_one]
@@ -307,24 +308,23 @@ theorem C11_elapsed_is_k_periods (tr : Nat → List (Trans Int)) (P : Int) (n : 
 
 /-- **exact transition tick of `timeout T`**: with tick period `P > 0` the frame is left `k` ticks
 after it was entered, where `k ≥ 1` is the least number of periods with `k·P ≥ T` … -/
-theorem C11_timeout_tick_exact (tr : Nat → List (Trans Int)) (P : Int) (n : Nat)
+theorem C11_timeout_tick_exact (tr : Nat → List (Trans Int)) (P : Int) (s n : Nat)
     (pre : List (Obs Int)) (oe : Obs Int) (mid : List (Obs Int)) (oi : Obs Int) (post : List (Obs Int))
     (T : Int) (far : Nat)
     (hprog : tr oe.after.active = [⟨[.elapsed .ge T], far⟩])
-    (h : run tr (stamps P n) = pre ++ oe :: (mid ++ oi :: post))
+    (h : run tr (stampsFrom P s n) = pre ++ oe :: (mid ++ oi :: post))
     (he : oe.entered = true) (hm : ∀ m ∈ mid, m.entered = false) (hent : oi.entered = true) :
     T ≤ ((mid.length + 1 : Nat) : Int) * P ∧
     ∀ j : Nat, 1 ≤ j → j < mid.length + 1 → (j : Int) * P < T := by
   have g := C11_timeout_fires_first tr _ pre oe mid oi post T far hprog h he hm
-  have hoe := now_at tr P n pre oe _ h
+  have hoe := now_at tr P s n pre oe _ h
   constructor
-  · have h2 : oi.now = ((pre ++ oe :: mid).length : Nat) * P :=
-      now_at tr P n (pre ++ oe :: mid) oi post (by rw [h]; simp)
+  · have h2 : oi.now = ((s + (pre ++ oe :: mid).length : Nat) : Int) * P :=
+      now_at tr P s n (pre ++ oe :: mid) oi post (by rw [h]; simp)
     have := g.1.1 hent
     rw [hoe, h2] at this
     simp only [List.length_append, List.length_cons, Int.natCast_add, Int.natCast_one] at this ⊢
-    rw [Int.add_mul, Int.add_mul] at this
-    rw [Int.add_mul]
+    simp only [Int.add_mul] at this ⊢
     omega
   · intro j h1 hj
     -- the observation j iterations after `oe` is `mid[j-1]`
@@ -336,17 +336,17 @@ theorem C11_timeout_tick_exact (tr : Nat → List (Trans Int)) (P : Int) (n : Na
       rw [e] at this; exact this
     have hmem : mid[j - 1] ∈ mid := List.getElem_mem hlt
     have hnot := g.2.2 _ hmem
-    have hnow : (mid[j - 1]).now = ((pre ++ oe :: mid.take (j - 1)).length : Nat) * P :=
-      now_at tr P n (pre ++ oe :: mid.take (j - 1)) (mid[j - 1]) (mid.drop j ++ oi :: post) (by
+    have hnow : (mid[j - 1]).now = ((s + (pre ++ oe :: mid.take (j - 1)).length : Nat) : Int) * P :=
+      now_at tr P s n (pre ++ oe :: mid.take (j - 1)) (mid[j - 1]) (mid.drop j ++ oi :: post) (by
         rw [h]; conv => lhs; rw [hsplit]
         simp)
     rw [hnow, hoe] at hnot
     simp only [List.length_append, List.length_cons, List.length_take, Int.natCast_add, Int.natCast_one] at hnot
     have hmin : min (j - 1) mid.length = j - 1 := by omega
     rw [hmin] at hnot
-    rw [Int.add_mul, Int.add_mul] at hnot
     have hj : ((j - 1 : Nat) : Int) = (j : Int) - 1 := by omega
-    rw [hj, Int.sub_mul] at hnot
+    rw [hj] at hnot
+    simp only [Int.add_mul, Int.sub_mul] at hnot
     omega
 
 /-- … which is `max 1 ⌈T/P⌉` (pure arithmetic; `(T + P − 1) / P` is the integer ceiling of `T/P`) -/
